@@ -20,6 +20,10 @@ const DOM: OptDomain = OptDomain {
 
 fn gen(r: &mut Rng, _cfg: &RunCfg) -> Case {
     let mut text = gen_text(r, TextDomain::Clean);
+    if r.chance(1, 40) {
+        let l = crate::gen::text::hyphen_link(r);
+        crate::gen::text::inject_word(r, &mut text, &l);
+    }
     if r.chance(1, 3) {
         // make sure multi-paragraph texts with long later paragraphs are common
         let brk = if r.coin() { "\n" } else { "\r\n" };
@@ -74,7 +78,8 @@ pub fn check(case: &Case, obs: &mut Obs) -> Verdict {
     if !clean_ansi(text) || !clean_ansi(&o.ii) || !clean_ansi(&o.si) {
         return Verdict::Skipped("text or indent has malformed escape sequences");
     }
-    let lines = textwrap::wrap(text, o.build());
+    let built = o.build();
+    let lines = if o.by_ref(text) { textwrap::wrap(text, &built) } else { textwrap::wrap(text, o.build()) };
     obs.calls += 1;
     if obs.want_sample {
         obs.out = Some(lines_json(&lines));
